@@ -14,7 +14,8 @@ MANIFEST = {
                      "and deep sharing of nested elements with the destructor cascade — to a store of values, by induction over "
                      "operation histories and over access paths; coercion and equality lemmas over all integers / all values) "
                      "+ differential correspondence model vs real Variant.hpp (values and every block's reference count) vs an "
-                     "independent value-semantics reference",
+                     "independent value-semantics reference; tie by translation: a translator regenerates Lean definitions of 31 member "
+                     "functions from the current Variant.hpp on every run and each is proved equal to the model's step",
         "text": "Headline theorems deep_refines / deep_driver_refines: for all histories of all operations (assignments, copies, "
                 "swaps, typed assignments incl. temporaries, mutable accesses through nested paths of any depth) the heap model the "
                 "driver runs — element Variants are cells, copies share blocks lazily at every level, clear() cascades — never "
@@ -32,9 +33,25 @@ MANIFEST = {
                 "Variant.hpp/Array.hpp/List.hpp/HashMap.hpp/String.cpp on every run: identical op lines are "
                 "executed by a harness built from the sources (ASan/UBSan/LSan) and by the compiled model; getType, every to* "
                 "conversion (toDouble as its exact IEEE bit pattern), the full nested value, the reference count of every heap block (data->ref, white box) and the == matrix of "
-                "all six variables are compared after every op, and the values against a Python store of deep-copied values.",
-        "note": "Trusted: Lean kernel + the three standard axioms; hand translation of Variant.hpp into the models (validated by the "
-                "correspondence run, not proved).  Doubles are opaque in the theorems (any semantics of ==, casts, atof, printf %f): every "
+                "all six variables are compared after every op, and the values against a Python store of deep-copied values.  "
+                "Tie by translation (PropsGen.lean, 44 theorems): tools/gen_variant.py parses the current Variant.hpp and writes clear(), the copy "
+                "constructor, operator=(const Variant&), the three const and four mutable accessors, the six scalar and four boxed typed operator= "
+                "(statement by statement over Raw.lean: pointer `data` + member `_data`) and getType/isNull/toBool/toInt/toUInt/toInt64/toUInt64/"
+                "toDouble/toString() const and operator== (per type tag) as Lean definitions; gen_clear, gen_copyCtor, gen_assign, gen_to*Mut, gen_to*Const, gen_set*, "
+                "gen_getType ... gen_toStr, gen_eq prove each equal to release / copyCell / assignFrom / accessCell / accessPay / leafOp .set / setBoxedCell of "
+                "the deep model resp. Val.type / Val.to* / one unfolding of veq of the value model, on every object that represents a model cell.  A body outside the "
+                "translated subset or one whose meaning changed breaks the tie (refusal / failed proof).  A coercion boundary table (3 210 decimal "
+                "strings at the range boundaries of int/uint/int64/uint64/double with sign, white space, zeros and trailing rest, 42 hard atof inputs) "
+                "runs real glibc against the Lean definitions of strtol/strtoul/atof and the Python reference on every run.",
+        "note": "Trusted: Lean kernel + the three standard axioms; the translator tools/gen_variant.py (Python; its rules: NSTD_VERIF_RC_YIELD hook "
+                "macros dropped; `&other != this` is a parameter, `other` is read only where that test holds and never after clear(); `->~T()` detaches "
+                "the elements, which are destroyed right after delete[] (the model's order unlink-then-destroy); `->type = K; ->ref = N` of a new block "
+                "hoisted to its allocation; the element destructor is a parameter instantiated with release f; integer casts value-preserving inside the "
+                "target range, reductions mod 2^32/2^64 outside; String::to*/from* are the area's definitions; reading a union member under another tag "
+                "is refused) and the vocabulary Raw.lean it targets; hand translation (validated by the correspondence run, not proved) of what is NOT "
+                "translated: swap, operator!=, the converting constructors, the nested walk and the List/Array/HashMap members.  gen_set<Boxed> equals "
+                "setBoxedCell on the clone branch; on the in-place branch the element destructors run at fuel f where the model says f+1 (no fuel "
+                "monotonicity lemma).  Doubles are opaque in the theorems (any semantics of ==, casts, atof, printf %f): every "
                 "statement about the floating alternative is definitional, the double coercions are covered by the correspondence run "
                 "against Python floats (bit-exact for toDouble/atof, byte-exact for %f); about the driver's IEEE instance (Ieee.lean) only "
                 "the integer conversion is proved: toDouble() of bool/integers is dOfInt of the stored integer and dOfInt is the correctly "
